@@ -363,8 +363,8 @@ fn s_bytes(t: &mut Tape, ctx: &mut Ctx) -> Result<(), Failure> {
 
 pub fn streams() -> Vec<Stream> {
     vec![
-        Stream { name: "literals", kind: Kind::Tape { cases: |t: Tier| t.pick(30_000, 2_000_000), max_len: 400, f: s_literals }, isolate: false },
-        Stream { name: "bytes", kind: Kind::Tape { cases: |t: Tier| t.pick(10_000, 300_000), max_len: 200, f: s_bytes }, isolate: false },
+        Stream { name: "literals", kind: Kind::Tape { cases: |t: Tier| t.pick(300_000, 6_000_000), max_len: 400, f: s_literals }, isolate: false },
+        Stream { name: "bytes", kind: Kind::Tape { cases: |t: Tier| t.pick(100_000, 2_000_000), max_len: 200, f: s_bytes }, isolate: false },
     ]
 }
 
